@@ -1,4 +1,511 @@
 package rules
 
-func (c *Ctx) checkReplyObligation() {}
-func (c *Ctx) checkPanicCensus()     {}
+import (
+	"fmt"
+	"go/types"
+	"os"
+	"sort"
+	"strings"
+
+	"golang.org/x/tools/go/ssa"
+
+	"verifchk/core"
+)
+
+// ---------------------------------------------------------------------------------------------
+// (3) reply obligation
+
+type replyAnalysis struct {
+	c           *Ctx
+	handoff     []*types.Var          // channel fields whose receivers owe the reply
+	memo        map[*ssa.Function]int // 0 unknown, 1 in progress, 2 always replies, 3 not
+	errMemo     map[*ssa.Function]int
+	cutMemo     map[*ssa.Function]map[core.Edge]bool
+	witness     map[*ssa.Function]ssa.Instruction
+	queueOut    []*types.Func
+	routeMaster *types.Func
+}
+
+func (c *Ctx) newReplyAnalysis() *replyAnalysis {
+	ra := &replyAnalysis{c: c, memo: map[*ssa.Function]int{}, witness: map[*ssa.Function]ssa.Instruction{}, errMemo: map[*ssa.Function]int{}, cutMemo: map[*ssa.Function]map[core.Edge]bool{}}
+	for _, f := range [][2]string{{"Hub", "join"}, {"Hub", "routeCli"}, {"Hub", "meta"}, {"Hub", "unreg"},
+		{"Subscription", "broadcast"}, {"Subscription", "meta"}, {"Subscription", "done"}, {"Topic", "reg"}, {"Topic", "unreg"}, {"Topic", "meta"}, {"Topic", "clientMsg"}} {
+		ra.handoff = append(ra.handoff, c.field("server", f[0], f[1]))
+	}
+	ra.routeMaster = c.method("server", "Cluster", "routeToTopicMaster")
+	ra.queueOut = []*types.Func{c.method("server", "Session", "queueOut"), c.method("server", "Session", "queueOutBytes")}
+	return ra
+}
+
+func (ra *replyAnalysis) isHandoffChan(v ssa.Value) bool {
+	f, _ := core.LoadedField(core.Strip(v))
+	if f == nil {
+		return false
+	}
+	for _, h := range ra.handoff {
+		if h == f {
+			return true
+		}
+	}
+	return false
+}
+
+// isReplyInstr: the instruction itself discharges the obligation.
+func (ra *replyAnalysis) isReplyInstr(in ssa.Instruction) bool {
+	switch x := in.(type) {
+	case *ssa.Send:
+		return ra.isHandoffChan(x.Chan)
+	case ssa.CallInstruction:
+		if _, isDefer := in.(*ssa.Defer); isDefer {
+			return false
+		}
+		f := core.CalleeOf(x.Common())
+		for _, q := range ra.queueOut {
+			if f == q {
+				return true
+			}
+		}
+		if f == ra.routeMaster {
+			// request forwarded to the master node of a proxied topic (the caller replies when forwarding fails)
+			return true
+		}
+		if cal := x.Common().StaticCallee(); cal != nil && cal.Blocks != nil && strings.HasPrefix(cal.Pkg.Pkg.Path(), core.ModPath) {
+			return ra.always(cal)
+		}
+	}
+	return false
+}
+
+// replyCut: edges on which a non-blocking select chose a hand-off send.
+func (ra *replyAnalysis) replyCut(fn *ssa.Function) map[core.Edge]bool {
+	cut := map[core.Edge]bool{}
+	core.AllInstrs(fn, func(in ssa.Instruction) {
+		sel, ok := in.(*ssa.Select)
+		if !ok {
+			return
+		}
+		for i, st := range sel.States {
+			if st.Dir == types.SendOnly && ra.isHandoffChan(st.Chan) {
+				for e := range selectCaseEdges(sel, i) {
+					cut[e] = true
+				}
+			}
+		}
+	})
+	return cut
+}
+
+// always: every path from fn's entry to a return passes a reply or a hand-off.
+func (ra *replyAnalysis) always(fn *ssa.Function) bool {
+	switch ra.memo[fn] {
+	case 1:
+		return false
+	case 2:
+		return true
+	case 3:
+		return false
+	}
+	ra.memo[fn] = 1
+	cut := ra.cuts(fn)
+	found, w := core.PathAvoiding(fn, nil, core.IsReturn, ra.isReplyInstr, cut)
+	if found {
+		ra.memo[fn] = 3
+		ra.witness[fn] = w
+		return false
+	}
+	ra.memo[fn] = 2
+	return true
+}
+
+// cuts: edges on which the obligation is already discharged or does not apply: a hand-off
+// chosen by a non-blocking select; a store failure (not this rule's business); the error edge of
+// a callee that replies itself before returning an error; internal requests (join without a
+// {sub} packet: the sys topic bootstrap).
+func (ra *replyAnalysis) cuts(fn *ssa.Function) map[core.Edge]bool {
+	if c, ok := ra.cutMemo[fn]; ok {
+		return c
+	}
+	cut := ra.replyCut(fn)
+	for e := range ra.c.storeFailEdges(fn) {
+		cut[e] = true
+	}
+	core.AllInstrs(fn, func(in ssa.Instruction) {
+		call, ok := in.(*ssa.Call)
+		if !ok {
+			return
+		}
+		cal := call.Call.StaticCallee()
+		if cal == nil || cal.Blocks == nil || errIndex(cal.Signature) < 0 || !core.InPkg(cal, "server") {
+			return
+		}
+		if ra.repliesOnError(cal) {
+			for e := range core.FailEdges(fn, successGuard(call)) {
+				cut[e] = true
+			}
+		}
+	})
+	subF := ra.c.field("server", "ClientComMessage", "Sub")
+	pe, _ := core.PassEdges(fn, core.NilGuard("msg.Sub==nil (internal join)", core.IsFieldLoad(subF), true))
+	for e := range pe {
+		cut[e] = true
+	}
+	ra.cutMemo[fn] = cut
+	return cut
+}
+
+// repliesOnError: every path to a return with a possibly non-nil error passes a reply.
+func (ra *replyAnalysis) repliesOnError(fn *ssa.Function) bool {
+	switch ra.errMemo[fn] {
+	case 1:
+		return false
+	case 2:
+		return true
+	case 3:
+		return false
+	}
+	ra.errMemo[fn] = 1
+	ei := errIndex(fn.Signature)
+	isErrRet := func(in ssa.Instruction) bool {
+		ret, ok := in.(*ssa.Return)
+		return ok && !core.IsNil(ret.Results[ei])
+	}
+	// does the function return errors at all?
+	any := false
+	core.AllInstrs(fn, func(in ssa.Instruction) {
+		if isErrRet(in) {
+			any = true
+		}
+	})
+	if !any {
+		ra.errMemo[fn] = 3
+		return false
+	}
+	found, _ := core.PathAvoiding(fn, nil, isErrRet, ra.isReplyInstr, ra.cutsNoSelf(fn))
+	if found {
+		ra.errMemo[fn] = 3
+		return false
+	}
+	ra.errMemo[fn] = 2
+	return true
+}
+
+func (ra *replyAnalysis) cutsNoSelf(fn *ssa.Function) map[core.Edge]bool {
+	return ra.cuts(fn)
+}
+
+// storeFailEdges: the err != nil edges of calls on the store persistence interfaces.
+func (c *Ctx) storeFailEdges(fn *ssa.Function) map[core.Edge]bool {
+	out := map[core.Edge]bool{}
+	core.AllInstrs(fn, func(in ssa.Instruction) {
+		call, ok := in.(*ssa.Call)
+		if !ok {
+			return
+		}
+		if _, isStore := c.isStoreCall(call); !isStore {
+			return
+		}
+		if errIndex(call.Call.Signature()) < 0 {
+			return
+		}
+		for e := range core.FailEdges(fn, successGuard(call)) {
+			out[e] = true
+		}
+	})
+	return out
+}
+
+func (c *Ctx) checkReplyObligation() {
+	r := c.R
+	_, entries, n := c.dispatchTable()
+	r.Floor("C13.3-reply-obligation", 9)
+	if n != 1 {
+		r.Fail("C13.3-reply-obligation", "session dispatcher", "-", "dispatcher shape not recognised: undecided")
+		return
+	}
+	ra := c.newReplyAnalysis()
+	doneWrapper := map[*ssa.Function]bool{}
+	sort.Slice(entries, func(i, j int) bool { return entries[i].Kind < entries[j].Kind })
+	for _, e := range entries {
+		if !e.OK {
+			r.Fail("C13.3-reply-obligation", "dispatcher case "+e.Kind, e.Pos, "handler not decodable: undecided")
+			continue
+		}
+		if e.Kind == "Note" {
+			continue // notes are never answered
+		}
+		h := boundTarget(c, e.Handler)
+		if h == nil {
+			r.Fail("C13.3-reply-obligation", "handler of "+e.Kind, e.Pos, "bound method not resolvable")
+			continue
+		}
+		r.Func(fk(h))
+		ok := ra.always(h)
+		detail := ""
+		if !ok {
+			detail = "a path from entry to return at " + c.pos(ra.witness[h]) + " passes neither a reply (queueOut) nor a hand-off to a consumer that owes one"
+			if culprit := ra.firstNonReplyingCallee(h); culprit != "" {
+				detail += "; " + culprit
+			}
+		}
+		r.Check(ok, "C13.3-reply-obligation", fmt.Sprintf("%s: every path replies or hands the {%s} on", fk(h), strings.ToLower(e.Kind)), c.P.Pos(h.Pos()),
+			"all paths discharge the reply obligation", detail)
+		// the wrappers reply on their refusal edge
+		for _, w := range e.Wrappers {
+			if len(w.AnonFuncs) != 1 || doneWrapper[w] {
+				continue
+			}
+			doneWrapper[w] = true
+			inner := w.AnonFuncs[0]
+			// dynamic handler call counts as reply (the wrapped handler is checked above)
+			isDyn := func(in ssa.Instruction) bool {
+				call, ok := in.(*ssa.Call)
+				if !ok || call.Call.IsInvoke() || call.Call.StaticCallee() != nil {
+					return false
+				}
+				_, isB := call.Call.Value.(*ssa.Builtin)
+				return !isB
+			}
+			found, _ := core.PathAvoiding(inner, nil, core.IsReturn, func(in ssa.Instruction) bool { return isDyn(in) || ra.isReplyInstr(in) }, nil)
+			r.Check(!found, "C13.3b-guard-refusal-replies", fk(inner)+": refusal edge replies", c.P.Pos(inner.Pos()), "", "a state guard refuses a request without replying")
+		}
+	}
+	c.checkConsumers(ra)
+	if os.Getenv("VERIF_DEBUG") != "" {
+		for fn, st := range ra.memo {
+			if st == 3 && takesRequest(fn) {
+				fmt.Printf("DEBUG silent: %s witness %s\n", fk(fn), c.pos(ra.witness[fn]))
+			}
+		}
+	}
+}
+
+// checkConsumers: one level down - the goroutine loops that receive requests from the hand-off
+// channels must, for each received request, reply or hand it further on before taking the next one.
+func (c *Ctx) checkConsumers(ra *replyAnalysis) {
+	r := c.R
+	type chanSpec struct {
+		typ, field string
+		// noteField: requests for which silence is allowed are recognised by this non-nil field
+	}
+	// Topic.meta is not listed: its handlers reply per bit of MetaWhat, whose non-emptiness is a
+	// value-level fact established at the session (not decided here).
+	specs := []chanSpec{{"Hub", "join"}, {"Hub", "meta"}, {"Hub", "routeCli"}, {"Topic", "reg"}}
+	// census backing an exception: only the {get} and {set} session handlers send on Hub.meta, so
+	// a request taken off Hub.meta has Get or Set non-nil
+	metaF := c.field("server", "Hub", "meta")
+	getF, setF := c.field("server", "ClientComMessage", "Get"), c.field("server", "ClientComMessage", "Set")
+	onlyGetSet := true
+	nSenders := 0
+	for _, fn := range c.P.ModFuncs {
+		if !core.InPkg(fn, "server") {
+			continue
+		}
+		if len(chanSends(fn, core.IsFieldLoad(metaF))) > 0 {
+			nSenders++
+			if !(c.readsField(fn, getF) || c.readsField(fn, setF)) {
+				onlyGetSet = false
+			}
+		}
+	}
+	r.Check(onlyGetSet && nSenders >= 2, "C13.3d-hub-meta-senders", "every sender on Hub.meta is a {get} or {set} handler", "-", fmt.Sprintf("%d sending functions", nSenders), "a function that handles neither {get} nor {set} sends on Hub.meta")
+	noteF := c.field("server", "ClientComMessage", "Note")
+	r.Floor("C13.3c-consumer-replies", 5)
+	for _, sp := range specs {
+		fld := c.field("server", sp.typ, sp.field)
+		n := 0
+		for _, fn := range c.P.ModFuncs {
+			if !core.InPkg(fn, "server") {
+				continue
+			}
+			core.AllInstrs(fn, func(in ssa.Instruction) {
+				sel, ok := in.(*ssa.Select)
+				if !ok || !sel.Blocking {
+					return
+				}
+				for i, st := range sel.States {
+					if st.Dir != types.RecvOnly || !core.IsFieldLoad(fld)(st.Chan) {
+						continue
+					}
+					n++
+					r.Func(fk(fn))
+					edges := selectCaseEdges(sel, i)
+					cut := map[core.Edge]bool{}
+					for e := range ra.cuts(fn) {
+						cut[e] = true
+					}
+					// {note} requests are never answered: cut the edges on which msg.Note != nil
+					gNote := core.NilGuard("msg.Note!=nil", core.IsFieldLoad(noteF), false)
+					pn, _ := core.PassEdges(fn, gNote)
+					for e := range pn {
+						cut[e] = true
+					}
+					if sp.field == "meta" && onlyGetSet {
+						// exception backed by the census above: Get==nil && Set==nil is infeasible
+						ps, _ := core.PassEdges(fn, core.NilGuard("msg.Set==nil", core.IsFieldLoad(setF), true))
+						for e := range ps {
+							cut[e] = true
+						}
+					}
+					target := func(x ssa.Instruction) bool { return x == ssa.Instruction(sel) || core.IsReturn(x) }
+					isReply := func(x ssa.Instruction) bool {
+						if g, ok := x.(*ssa.Go); ok {
+							if cal := g.Common().StaticCallee(); cal != nil && cal.Blocks != nil {
+								return ra.always(cal)
+							}
+						}
+						return ra.isReplyInstr(x)
+					}
+					found, _ := core.PathFromEdgeAvoiding(fn, edges, target, isReply, cut)
+					construct := fmt.Sprintf("%s: request received from %s.%s is answered or handed on before the next one", fk(fn), sp.typ, sp.field)
+					detail := ""
+					if found {
+						detail = "some path from taking a request off " + sp.typ + "." + sp.field + " back to the select passes neither a reply nor a hand-off"
+						if cul := ra.firstNonReplyingCallee(fn); cul != "" {
+							detail += "; " + cul
+						}
+					}
+					r.Check(!found, "C13.3c-consumer-replies", construct, c.pos(sel), "", detail)
+				}
+			})
+		}
+		if n == 0 {
+			r.Fail("C13.3c-consumer-replies", "consumer of "+sp.typ+"."+sp.field, "-", "no select-receive on this channel found: undecided")
+		}
+	}
+}
+
+func (ra *replyAnalysis) firstNonReplyingCallee(fn *ssa.Function) string {
+	var names []string
+	core.AllInstrs(fn, func(in ssa.Instruction) {
+		ci, ok := in.(ssa.CallInstruction)
+		if !ok {
+			return
+		}
+		if cal := ci.Common().StaticCallee(); cal != nil && ra.memo[cal] == 3 && takesRequest(cal) {
+			names = append(names, fmt.Sprintf("callee %s has a silent path ending at %s", fk(cal), ra.c.pos(ra.witness[cal])))
+		}
+	})
+	if len(names) > 0 {
+		return names[0]
+	}
+	return ""
+}
+
+// reviewedPanics: explicit panic / log.Panic / log.Fatal sites that can run on a goroutine other
+// than start-up, reviewed by reading (function -> number of sites, reason). A site in a function
+// that is not listed, or more sites than listed, is reported.
+var reviewedPanics = map[string]struct {
+	n   int
+	why string
+}{
+	"(*server.Cluster).TopicMaster":                {1, "inter-node session update for a topic without a session-update channel: cluster protocol invariant"},
+	"(*server.ClusterNode).callAsync":              {1, "programming error assertion: unbuffered done channel"},
+	"(*server.Session).clusterWriteLoop":           {1, "default arm over the closed set of proxy request types"},
+	"(*server.SessionStore).NewSession":            {2, "duplicate session id (random 64-bit) / unknown connection type: assertions"},
+	"(*server.Topic).fndGetPublic":                 {2, "category/type assertions on the fnd topic's own state"},
+	"(*server.Topic).fndSetPublic":                 {2, "category/type assertions on the fnd topic's own state"},
+	"(*server.Topic).fndRemovePublic":              {2, "category/type assertions on the fnd topic's own state"},
+	"(*server.Topic).handleClientMsg":              {1, "default arm: only {pub} and {note} are ever sent on Topic.clientMsg (session side decided by C03/C09 rules)"},
+	"(*server.Topic).handleServerMsg":              {1, "default arm over server-generated message kinds"},
+	"(*server.Topic).handleLeaveRequest":           {1, "leave request without a resolvable user from a non-cluster session: assertion"},
+	"(*server.Topic).handleSessionUpdate":          {1, "user-agent update routed to a non-me topic: assertion"},
+	"(*server.Topic).original":                     {1, "p2p name rendering for a non-participant: needs a root session acting on behalf of a non-participant (not probed)"},
+	"(*server.Topic).p2pOtherUser":                 {2, "p2p topic with other than two subscribers / wrong category: assertion"},
+	"(*server.Topic).procPresReq":                  {1, "default arm over server-generated presence commands"},
+	"(*server.Topic).proxyCtrlBroadcast":           {1, "eviction notice from the master without uid: cluster protocol invariant"},
+	"(*server.Topic).replyLeaveUnsub":              {1, "zero user id: checked by the dispatcher's user guard (C11)"},
+	"(*server.boundedWaitGroup).Done":              {2, "more Done than Add: the pairing is decided by C14"},
+	"(*server/concurrency.GoRoutinePool).Schedule": {1, "schedule on a stopped pool: shutdown only"},
+	"(*server/concurrency.GoRoutinePool).worker":   {1, "assertion"},
+	"server.getDefaultAccess":                      {1, "default arm over topic categories"},
+	"server.pluginActionToCrud":                    {1, "default arm over plugin actions"},
+	"server.statsUpdater":                          {2, "stats registry assertions"},
+	"server/store/types.GetTopicCat":               {1, "partial function: every call site decided by C13.1"},
+}
+
+func (c *Ctx) checkPanicCensus() {
+	r := c.R
+	ri := c.roots()
+	count := map[string]int{}
+	first := map[string]ssa.Instruction{}
+	for _, fn := range c.P.ModFuncs {
+		if strings.HasPrefix(core.FuncKey(fn), "pbx") {
+			continue
+		}
+		core.AllInstrs(fn, func(in ssa.Instruction) {
+			is := false
+			switch x := in.(type) {
+			case *ssa.Panic:
+				is = x.Pos().IsValid() // go/ssa's own "blocking select matched no case" panics have no position
+			case ssa.CallInstruction:
+				if f := core.CalleeOf(x.Common()); f != nil && f.Pkg() != nil && f.Pkg().Path() == "log" {
+					switch f.Name() {
+					case "Panic", "Panicf", "Panicln", "Fatal", "Fatalf", "Fatalln":
+						is = true
+					}
+				}
+			}
+			if !is {
+				return
+			}
+			// start-up only?
+			startup := true
+			for rt := range ri.of(fn) {
+				n := rt.Name()
+				if !(n == "main" || n == "init" || strings.HasPrefix(n, "init#")) {
+					startup = false
+				}
+			}
+			if startup {
+				return
+			}
+			k := fk(core.TopFunc(fn))
+			count[k]++
+			if first[k] == nil {
+				first[k] = in
+			}
+		})
+	}
+	r.Floor("C13.5-panic-census", 15)
+	var ks []string
+	for k := range count {
+		ks = append(ks, k)
+	}
+	sort.Strings(ks)
+	for _, k := range ks {
+		row, ok := reviewedPanics[k]
+		construct := k + ": explicit panic/fatal sites"
+		switch {
+		case !ok && isInitClosure(k):
+			r.OK("C13.5-panic-census", construct+" [plugin/worker start-up closure]", c.pos(first[k]), "goroutine body started during initialisation; panic is go/ssa's select fallthrough or an init assertion")
+		case !ok:
+			r.Fail("C13.5-panic-census", construct, c.pos(first[k]), fmt.Sprintf("%d explicit panic/fatal site(s) in a function that can run on a serving goroutine and is not in the reviewed table", count[k]))
+		case count[k] > row.n:
+			r.Fail("C13.5-panic-census", construct, c.pos(first[k]), fmt.Sprintf("%d sites, reviewed table lists %d: a new explicit panic was added", count[k], row.n))
+		default:
+			r.OK("C13.5-panic-census", construct, c.pos(first[k]), fmt.Sprintf("%d site(s), reviewed: %s", count[k], row.why))
+		}
+	}
+}
+
+func isInitClosure(k string) bool {
+	return strings.Contains(k, ".Init$") || strings.Contains(k, "$1") && (strings.Contains(k, "garbageCollectUsers") || strings.Contains(k, "largeFileRunGarbageCollection"))
+}
+
+func takesRequest(fn *ssa.Function) bool {
+	if fn.Signature.Results().Len() == 1 {
+		if pt, ok := fn.Signature.Results().At(0).Type().(*types.Pointer); ok {
+			if n, ok := pt.Elem().(*types.Named); ok && n.Obj().Name() == "ServerComMessage" {
+				return false // reply constructor
+			}
+		}
+	}
+	for _, p := range fn.Params {
+		if pt, ok := p.Type().(*types.Pointer); ok {
+			if n, ok := pt.Elem().(*types.Named); ok && n.Obj().Name() == "ClientComMessage" {
+				return true
+			}
+		}
+	}
+	return false
+}
